@@ -96,7 +96,9 @@ PLACEMENTS = ("module", "function", "class", "global_decl", "captured", "capture
               "nested_function", "method", "class_in_function", "method_of_nested_class",
               "if_branch", "else_branch", "for_body", "while_body", "loop_in_function",
               # the import is the ONLY statement of a taken branch (its lowered value decides nothing)
-              "if_branch_in_class", "if_branch_global_decl", "elif_branch_in_function")
+              "if_branch_in_class", "if_branch_global_decl", "elif_branch_in_function",
+              # blocks called `top` (the symtable module takes a block of that name for the module block)
+              "class_named_top", "function_named_top", "captured_in_function_named_top")
 
 
 def program(stmt, names, where):
@@ -130,6 +132,13 @@ def program(stmt, names, where):
         return "def FF():\n    class KK:\n        def mm(self):\n%s\n    KK().mm()\nFF()\n" % ind(3, lines + [show])
     if where == "if_branch":
         return "if P(1, 1):\n%s\nelse:\n    P(2)\n%s\n" % (ind(1, lines), show)
+    if where == "class_named_top":
+        return "class top:\n" + ind(1, lines + [show]) + "\nL('cls', %s)\n" % ", ".join("top." + n for n in names)
+    if where == "function_named_top":
+        return "def top():\n" + ind(1, lines + [show]) + "\ntop()\n"
+    if where == "captured_in_function_named_top":
+        return ("def top():\n" + ind(1, lines) + "\n    def GG():\n        return (%s,)\n    class KK:\n        got = (%s,)\n    L('inner', *GG())\n    L('cls', *KK.got)\n    %s\ntop()\n"
+                % (", ".join(names), ", ".join(names), show))
     if where == "if_branch_in_class":
         return "class KK:\n    if P(1, 1):\n%s\n    else:\n        P(2)\n    %s\nL('cls', %s)\n" % (
             ind(2, lines), show, ", ".join("KK." + n for n in names))
